@@ -258,7 +258,11 @@ def _remove_pockets_on_one_side_of_the_pinch(
                 else:
                     i_0 += n_int_added
 
-            j_rng = range(i_0 + 1, i + 1) if is_above_pinch else range(i + 1, i_0)
+            if is_above_pinch:
+                j_rng = range(i_0 + 1, i + 1)
+            else:
+                # when the closing point coincides with an existing row nothing is inserted: the exit row itself must be flattened
+                j_rng = range(i + (1 if (n_int_added > 0 or i == pinch_loc) else 0), i_0)
             for j in j_rng:
                 H_NP_vals[j] = H_vals[i_0]
 
